@@ -53,7 +53,8 @@ func (rw *unescapeRewriter) WriteFieldBody(value string, record *base.LogRecord,
 	if record.Unescaped {
 		return copy(buffer, value)
 	}
-	record.Unescaped = true
+	// do not mark the record as unescaped: only the output buffer is rewritten, the field itself stays escaped
+	// and is serialized again for every other output
 	first := unescaper.FindFirst(value)
 	if first == -1 {
 		return copy(buffer, value)
